@@ -33,9 +33,24 @@ QWIRINGS = {
     "wide": (["x", "u"], ["z", "v"], ["x"], ["y"], ["x", "u", "y"]),
     "shared-output": (["x"], ["y", "z"], ["x"], ["y"], ["x", "y"]),
     "two-links": (["x"], ["z"], ["x"], ["y", "w"], ["x", "y", "w"]),
+    # the divisor owns two of the dividend's outputs and reads a variable the quotient must produce:
+    # the dividend's guarantees are refined through chains over both eliminated variables
+    "owned-chain": ([], ["v", "w", "x"], ["z"], ["v", "w"], []),
 }
 
 CURATED = [
+    (
+        "owned-chain-lower",
+        "owned-chain",
+        {"in": [], "out": ["v", "w", "x"], "a": [], "g": [{"x": 1, "v": -1}]},
+        {"in": ["z"], "out": ["v", "w"], "a": [], "g": [{"w": 1, "z": 1, "v": -1}, {"w": -1}, {"w": 1}]},
+    ),
+    (
+        "owned-chain-upper",
+        "owned-chain",
+        {"in": [], "out": ["v", "w", "x"], "a": [], "g": [{"v": 1, "x": -1}]},
+        {"in": ["z"], "out": ["v", "w"], "a": [], "g": [{"v": 1, "w": -1, "z": -1}, {"w": -1}, {"w": 1}]},
+    ),
     # dividend obtained by composing the divisor with a hidden partner (constants freed)
     (
         "from-composition",
@@ -90,6 +105,10 @@ def jobs(tier, seed):
         ci, co, di, do, cand = QWIRINGS[w]
         c = CS.rand_contract(rng, ci, co, alphabet, na=(0, 1, 2))
         c1 = CS.rand_contract(rng, di, do, alphabet, na=(0, 1, 1))
+        if w == "owned-chain":
+            sg = lambda: rng.choice([-2, -1, 1, 2])  # noqa: E731
+            c = {"in": [], "out": co, "a": [], "g": [{"x": sg(), "v": sg()}] + ([{"x": sg(), "w": sg()}] if rng.random() < 0.3 else [])}
+            c1 = {"in": di, "out": do, "a": [], "g": [{"v": sg(), "w": sg(), "z": sg()}, {"w": sg()}] + ([{"w": sg()}] if rng.random() < 0.7 else []) + ([{"v": sg(), "z": sg()}] if rng.random() < 0.3 else [])}
         add = [v for v in cand if rng.random() < 0.3]
         out.append({"kind": "random:" + w, "wiring": w, "c": c, "c1": c1, "add": add, "simplify": rng.random() < 0.6, "tactics": rng.choice(orders)})
     return out
